@@ -145,9 +145,17 @@ async def _run(rng, cfg, specs):
     await p.start()
     await p.run_specs(specs)
     sids = {}
+    from .c14 import _iid_of
+    by_wire = {}
+    for e in p.world.events:
+        if e['kind'] == 'wire' and e['dir'] == 'send' and e['f'].get('type') in ('REQUEST_STREAM', 'REQUEST_CHANNEL'):
+            i = _iid_of(e['f'])
+            if i is not None:
+                by_wire.setdefault(i, e['f']['sid'])
     for s in specs:
         h = p.world.inter[s['iid']].get('stream_handle')
-        sids[s['iid']] = getattr(h, 'stream_id', None)
+        # (interactions driven through AwaitableRSocket have no handle: their stream id is read off the wire)
+        sids[s['iid']] = getattr(h, 'stream_id', None) or by_wire.get(s['iid'])
     await p.close()
     return p, sids
 
